@@ -170,6 +170,9 @@ type httpFaultSpec struct {
 	// SSL: the gun's ssl option against a peer that speaks TLS; TLSHang: every third connection the peer accepts never
 	// answers the ClientHello, so the handshake runs into the client's tls-handshake-timeout (1 s)
 	SSL, TLSHang bool
+	// ConnectSSL: the connect gun's connect-ssl option: the tunnel to the proxy itself runs over TLS (the same
+	// TLSHang applies to the proxy's handshakes then)
+	ConnectSSL bool
 	// diagnostics of the gun that read or rewrite the request and the response on the way
 	Trace, Dump bool
 	AnswLog     string // "", all, warning, error
@@ -215,6 +218,10 @@ func genHTTPFaultSpec(r *R, faults bool) httpFaultSpec {
 		sp.SSL = true
 		sp.TLSHang = f.Draw(2) == 0
 	}
+	if sp.Gun == "connect" && w.Draw(3) == 0 {
+		sp.ConnectSSL = true
+		sp.TLSHang = f.Draw(2) == 0
+	}
 	if w.Draw(3) == 0 {
 		sp.Trace, sp.Dump = w.Bool(), w.Bool()
 		sp.AnswLog = []string{"", "all", "warning", "error"}[w.Draw(4)]
@@ -256,7 +263,7 @@ func (sp httpFaultSpec) describe() map[string]any {
 		bs = append(bs, fmt.Sprintf("%s/%d", b.Kind, b.Status))
 	}
 	return map[string]any{"entries": sp.Entries, "passes": sp.Passes, "instances": sp.Inst, "gun": sp.Gun, "auto_tag": sp.AutoTag, "uri_elements": sp.URIElems, "no_tag_only": sp.NoTagOnly,
-		"keep_alive": sp.KeepAlive, "tags": sp.Tags, "paths": sp.Paths, "methods": sp.Methods, "peer": bs, "conn_faults": sp.ConnFaults, "format": sp.Format, "latency": sp.Lat.String(), "chunk": sp.Chunk, "follow_redirects": sp.FollowRedirects, "ssl": sp.SSL, "tls_hang_every_third_conn": sp.TLSHang, "httptrace": fmt.Sprintf("trace=%v dump=%v", sp.Trace, sp.Dump), "answlog": sp.AnswLog}
+		"keep_alive": sp.KeepAlive, "tags": sp.Tags, "paths": sp.Paths, "methods": sp.Methods, "peer": bs, "conn_faults": sp.ConnFaults, "format": sp.Format, "latency": sp.Lat.String(), "chunk": sp.Chunk, "follow_redirects": sp.FollowRedirects, "ssl": sp.SSL, "connect_ssl": sp.ConnectSSL, "tls_hang_every_third_conn": sp.TLSHang, "httptrace": fmt.Sprintf("trace=%v dump=%v", sp.Trace, sp.Dump), "answlog": sp.AnswLog}
 }
 
 func runHTTPFaults(r *R, sp httpFaultSpec) *httpFaultOutcome {
@@ -298,6 +305,9 @@ func runHTTPFaults(r *R, sp httpFaultSpec) *httpFaultOutcome {
 		gun["ssl"] = true
 		gun["tls-handshake-timeout"] = "1s"
 	}
+	if sp.ConnectSSL {
+		gun["connect-ssl"] = true
+	}
 	if sp.Trace || sp.Dump {
 		gun["httptrace"] = map[string]interface{}{"trace": sp.Trace, "dump": sp.Dump}
 	}
@@ -335,7 +345,7 @@ func runHTTPFaults(r *R, sp httpFaultSpec) *httpFaultOutcome {
 		},
 		func(nw *simnet.Net) {
 			defer func() {
-				if sp.SSL && peer != nil {
+				if (sp.SSL || sp.ConnectSSL) && peer != nil {
 					cert := testCert()
 					peer.TLS = &tls.Config{Certificates: []tls.Certificate{cert}, NextProtos: []string{"http/1.1"}}
 					if sp.TLSHang {
